@@ -1,6 +1,7 @@
 """C04 - multiply / divide: dimension exponents add, base-unit magnitudes multiply
 (DESIGN.md section 4, C04). Random expression trees evaluated by barril and by the dimensional
 model in lock step, compared at every node."""
+import math
 from fractions import Fraction as Fr
 
 from .. import probe
@@ -217,6 +218,38 @@ def run(ctx):
                             ck.bad("raised", e.spec, {"error": repr(e.exc)[:300]})
                 done += 1
             ctx.count("named unit against the derived quantity with the same unit string", done)
+        # one operand over an integer ndarray, the other over a list / tuple / float ndarray of non-integral amounts, in both
+        # orders: products and quotients are computed on the amounts as they are (nothing is squeezed into the integer dtype)
+        if ctx.shard == 0:
+            import numpy as np
+            from barril.units import Array as _Arr
+
+            ints, fracs = [2, -3, 4], [1.5, -2.25, 3.75]
+            for u, v in (("m", "m"), ("m", "cm"), ("s", "m"), ("kg", "g")):
+                for dt in (np.int64, np.int32):
+                    for kind, mk in (("list", list), ("tuple", tuple), ("nd", lambda z: np.array(z, dtype=float))):
+                        a_int, b_frac = _Arr(np.array(ints, dtype=dt), u), _Arr(mk(fracs), v)
+                        for sym, fn, ref in (("*", lambda p, q: p * q, lambda x, y: x * y), ("/", lambda p, q: p / q, lambda x, y: x / y), ("//", lambda p, q: p // q, None)):
+                            for order, left, right, lv, rv, lu, ru in (("int ndarray first", a_int, b_frac, ints, fracs, u, v), ("int ndarray second", b_frac, a_int, fracs, ints, v, u)):
+                                ctx.ev()
+                                ctx.nt(("integer ndarray product", sym, order, kind, dt.__name__, u, v))
+                                case_ = {"op": sym, "order": order, "other_container": kind, "dtype": dt.__name__, "units": [lu, ru]}
+                                try:
+                                    res = fn(left, right)
+                                    got = dims.basemag_list(T, res) if hasattr(dims, "basemag_list") else [float(dims.basemag(T, float(x), dims.items_of(res.GetQuantity()))) for x in res.GetValues()]
+                                    fl, fr_ = T.aff[lu].slope, T.aff[ru].slope
+                                    if sym == "//":
+                                        # the quotient is floored in the left operand's unit after the right one was re-expressed
+                                        same_type = T.aff[lu].qt == T.aff[ru].qt
+                                        want = [(math.floor(x / (y * fr_ / fl)) if same_type else math.floor(x / y) * fl / fr_) for x, y in zip(lv, rv)]
+                                        want = [w if same_type else w for w in want]
+                                    else:
+                                        want = [ref(x * fl, y * fr_) for x, y in zip(lv, rv)]
+                                    if len(got) != len(want) or not all(abs(g - w) <= 1e-9 * (abs(w) + 1e-300) for g, w in zip(got, want)):
+                                        ck.root = None
+                                        ctx.violation("integer-ndarray-operand:magnitude:%s" % sym, dict(case_, got=got, want=want, result=repr(res)[:160]), replay=case_)
+                                except Exception as e:
+                                    ctx.violation("integer-ndarray-operand:raised:%s" % sym, dict(case_, error="%s: %s" % (type(e).__name__, str(e)[:160])), replay=case_)
         # Quantity ** n equals n-fold product
         for _ in range(200):
             spec = B.tree(r, 2, 1)
